@@ -603,3 +603,19 @@ def oracle(seed, tier):
         for sig, what in judge(sc, out):
             res.violation(sig, {'scenario': sc, 'schedule': out['choices'][:600]}, what)
     return res
+
+
+def _relabel(fn, prop):
+    def wrapped(seed, tier):
+        r = fn(seed, tier)
+        if hasattr(r, 'prop'):
+            r.prop = prop
+        return r
+    wrapped.__name__ = '%s_%s' % (fn.__name__, prop)
+    return wrapped
+
+
+# the process-pool downloader is one of the download front-ends C02 and C06 speak about: its trace validation and
+# oracle (done only after all jobs, temp gone at done, no partial publish, bytes of the renamed file) run under them too
+corr_C02, corr_C06 = _relabel(corr, 'C02'), _relabel(corr, 'C06')
+oracle_C02, oracle_C06 = _relabel(oracle, 'C02'), _relabel(oracle, 'C06')
